@@ -53,6 +53,11 @@ CHECKS["C12"] = dict(
     note="Bounds: batches of <= 2-3 items, <= 3 symbols per item. Other estimators listed as uncovered in the evidence.",
     ref="4/C12")
 
+CHECKS["C05"] = dict(
+    text="(a) Bounded symbolic model checking of the real preprocess_token_sequences / prune_token_dictionary / construct_document_frequency on symbolic corpora with *symbolic* occurrence, frequency and document bounds, excluded set and max_unique_tokens against the set comprehension of the statement (kept set, top-k rule, indices 0..n-1 in sorted token order, inverse dictionary, re-indexed sequences). (b) IEEE-754 lemma on the real construct_token_dictionary_and_frequency + prune_token_dictionary with bit-vector backed counts and numpy NEP-50 float32/float64 promotion: for every total n up to the bound and every count c, a token occurring exactly min_occurrences / max_occurrences times is kept and the adjacent count on the wrong side is pruned.",
+    note="Bounds: (a) <= 4 tokens in <= 3 documents (6 thorough); (b) n <= 32 quick / 512 thorough, c symbolic. excluded_token_regex is outside (regular expressions); np.bincount is stubbed in (b).",
+    ref="4/C05")
+
 NOT_YET = {}
 
 
